@@ -50,6 +50,7 @@ type JobRes struct {
 	Truncated bool           `json:"truncated,omitempty"`
 	Err       string         `json:"err,omitempty"`
 	Info      map[string]int `json:"info,omitempty"`
+	Roles     []string       `json:"roles,omitempty"`
 }
 
 // checkImpl is what each property supplies.
